@@ -42,6 +42,12 @@ def gen_lopsided(rng):
     return [cubelib.make_spec(rng, col, common) for col, common, _ in cols]
 
 
+def gen_related(rng):
+    """cubelib.gen_related with one-axis dimensions: the same object at several positions, twins, zero-entry dimensions"""
+    N, specs, pattern = cubelib.gen_related(rng, multi_axis=False)
+    return specs, pattern
+
+
 def gen_exhaustive(nd, rows=3):
     """Every entries-structure over `rows` rows and 3 uncommon categories: dense arrays over
     {0,1,2,3} with common 3 (the walk never looks at the common value, so every (array over 3
@@ -56,6 +62,9 @@ def observe(ccube, dims, mode):
     cube = ccube(dims)
     if mode == "interactions":
         out = [(tuple(int(x) for x in c), [int(x) for x in r]) for c, r in cube.interactions()]
+        again = [(tuple(int(x) for x in c), [int(x) for x in r]) for c, r in cube.interactions()]      # the same cube object asked twice
+        if again != out:
+            return out, "the same cube object delivers different sequences when asked twice: %r then %r" % (out[:6], again[:6])
         return out, None
     a, b = [], []
     if mode == "walk1":
@@ -84,7 +93,7 @@ def judge(specs, obs):
 def run_one(ctx, ccube, specs, mode):
     """Observe the real cube through `mode` (the literal compared in Coq and judged by the oracle) AND through the
     two other observation points; all three must deliver the same sequence (same order, same row ids)."""
-    dims = [cubelib.build_dim(s) for s in specs]
+    dims = cubelib.build_dims(specs)
     obs, err = observe(ccube, dims, mode)
     for other in ("interactions", "walk1", "walk2"):
         if other != mode and not err:
@@ -111,7 +120,9 @@ def run(ctx):
                 "interactions(), walk(f) and walk([f,g]) (every case through all three, which must deliver identical sequences; "
                 "the literal compared in Coq rotates over them); lopsided: N in 30..120, 2-4 dims of extent 2-4 with one frequent category "
                 "(60-90 % of the rows) and rare categories of 1-3 rows whose last row usually lies in the next dimension's frequent "
-                "category (short running row-id sets against long index entries); exhaustive: every dictionary structure over 3 rows x 3 uncommon "
+                "category (short running row-id sets against long index entries); relations: the very same iindex object at two or three "
+                "positions of dims (A A, A B A, A A A), equal-content twins as distinct objects (other construction path / dict order), "
+                "zero-entry dimensions next to ordinary ones; every cube object is asked twice (interactions() twice); exhaustive: every dictionary structure over 3 rows x 3 uncommon "
                 "categories for 1 and 2 dimensions (quick) and 3 dimensions (thorough); a case is distinct per "
                 "(dims literal, observation mode) and non-trivial when at least one pair is delivered")
     ctx.trusted = list(core.STD_TRUSTED) + [
@@ -129,6 +140,7 @@ def run(ctx):
 
     cases, metas, found = [], [], []
     form_dist = collections.Counter()
+    rel_dist = collections.Counter()
     modes = ["interactions", "walk1", "walk2"]
 
     def add(specs, mode):
@@ -150,6 +162,10 @@ def run(ctx):
     for i in range(n_random):
         if i % every == 0:          # interleaved so that the (heavier, N up to 120) cases spread over the Coq shards
             add(gen_lopsided(ctx.rng), modes[(i // every) % 3])
+        if i % every == 1:
+            rspecs, pattern = gen_related(ctx.rng)
+            add(rspecs, modes[(i // every) % 3])
+            rel_dist[pattern] += 1
         specs = gen_random(ctx.rng)
         obs = add(specs, modes[i % 3])
         if i < 3:
@@ -162,6 +178,7 @@ def run(ctx):
             n_exh += 1
     ctx.coverage["random_cases"] = n_random
     ctx.coverage["input_forms"] = dict(sorted(form_dist.items()))
+    ctx.coverage["relations"] = dict(sorted(rel_dist.items()))
     ctx.coverage["lopsided_cases"] = len(range(0, n_random, every))
     ctx.coverage["exhaustive_cases"] = n_exh
     ctx.coverage["exhaustive_subspace"] = ("all 4^3 dictionaries per dimension over 3 rows x 3 uncommon categories, %s dimensions "
